@@ -11,6 +11,9 @@ This file closes that gap where it can be closed by proof, and records where the
   no stored intermediate leaves its type, for EVERY iterator meeting the contract, EVERY valid run of the parallel region.
 * `PcProofs/SafetyBoundsNT.lean`: the bound library (`π n ≤ (n+1)/2`, `P2 ≤ 3x/4`, `B(x, y) ≤ 7x/8`, every sub-sum of `B` is
   `≤ B`, ordered prime triples: `Σ_q π(√(x/q))² ≤ 6x`, `Σ_q π(y) π(x/(q y)) ≤ 6x`).
+* LoadBalancerS2 (`PcProofs/SafetyLB.lean`): the whole-history int64 safety claim for `sieve_limit ≤ 2^62 + 2^33` is REFUTED by a
+  kernel-checked history recorded on the real object under a constant (legal: monotone) clock (`s2_history_overflow_witness`);
+  what holds of every history (`s2_hands_below`) and what one step needs (`s2_step_no_overflow_of_hand_partial`).
 * FINDING (P2.cpp:109): `(a - 2) * (a + 1)` is an `int64_t` product also for `T = int128_t` and overflows for every
   `a = π(y) ≥ 3037000501` (`P2_128_closed_form_overflows`; real code: `primecount 1e22 --P2 --alpha=3713.2` prints a negative
   number, UBSan reports `P2.cpp:109:19: signed integer overflow: 3324998166 * 3324998169`; under default tuning every
@@ -18,6 +21,7 @@ This file closes that gap where it can be closed by proof, and records where the
 -/
 import PcProofs.SafetyP2Region
 import PcProofs.P2LoopEx
+import PcProofs.SafetyLB
 
 namespace Pc.C16Safety
 open Pc.P2L Pc.LB Pc.Safety Finset
@@ -117,6 +121,54 @@ theorem B_128_no_overflow {it : Iter} (hit : IterSpec it) {pi : ℕ → ℕ} {x 
   have : (x : ℤ) < 2 ^ 127 := by exact_mod_cast hx
   omega
 
+
+/-! ## LoadBalancerS2: whole histories -/
+
+/-- **The whole-history int64 safety of `LoadBalancerS2` is FALSE inside the range the public API guarantees**
+    (`sieve_limit ≤ 2^62 + 2^33`, `range_check_guarantee`): a 34-call history with `x = 10^31`, `sieve_limit = 2^61`, 2 threads,
+    no status output, recorded on the REAL object under a constant clock (all measured durations 0, so `segments_ *= 2` at
+    every update) is a behaviour of the integer model from `S2.init` (ThreadData handed back unchanged, outputs as computed,
+    no call after `false`), overflow-free for 33 calls, and its last call computes
+    `low_ + segment_size_ * segments_ = 5465968042385080320 + 1518500400 * 4294967296 ≥ 2^63` in `int64_t`
+    (UBSan on the real object: `LoadBalancerS2.cpp:130:8: signed integer overflow`). -/
+theorem s2_history_overflow_witness :
+    S2.wCfg.limit ≤ 2 ^ 62 + 2 ^ 33 ∧ S2.wX ≤ 10 ^ 31 ∧
+    S2.workersBelow S2.wCfg.threads (S2.wPre ++ [S2.wLast]) = true ∧
+    S2.behaves S2.wCfg S2.wInit (S2.wPre ++ [S2.wLast]) = true ∧
+    S2.allZeroDur S2.wCfg S2.wInit (S2.wPre ++ [S2.wLast]) = true ∧
+    S2.allNoOvf S2.wCfg S2.wInit S2.wPre = true ∧
+    S2.noOvf S2.wCfg (S2.run S2.wCfg S2.wInit S2.wPre) S2.wLast = false ∧
+    S2.peak S2.wCfg (S2.run S2.wCfg S2.wInit S2.wPre) S2.wLast = 5465968042385080320 + 1518500400 * 4294967296 ∧
+    two63 ≤ S2.peak S2.wCfg (S2.run S2.wCfg S2.wInit S2.wPre) S2.wLast := S2.s2_history_overflow_witness
+
+/-- hence no invariant theorem "every history from `S2.init` with `sieve_limit ≤ 2^62 + 2^33` keeps all int64 intermediates in
+    range" exists (clock traces are universally quantified in C03/C09/C16; a constant `steady_clock` reading is legal) -/
+theorem s2_whole_history_safety_refuted :
+    ¬ ∀ (x limit threads : Nat) (print : Bool) (es : List S2.Ev),
+        x ≤ 10 ^ 31 → limit ≤ 2 ^ 62 + 2 ^ 33 → 1 ≤ threads → S2.workersBelow threads es = true →
+        S2.behaves (S2.mkConfig genConsts limit threads print) (S2.init genConsts x limit threads print) es = true →
+        S2.allNoOvf (S2.mkConfig genConsts limit threads print) (S2.init genConsts x limit threads print) es = true :=
+  S2.s2_whole_history_safety_refuted
+
+/-- what DOES hold of every history from `S2.init` (no side condition): a call that hands back what it was handed
+    satisfies `thread.segments * thread.segment_size ≤ low_` -/
+theorem s2_hands_below (c : Consts) (x limit threads : Nat) (print : Bool) (cfg : S2.Config) (es : List S2.Ev) (e : S2.Ev)
+    (hh : S2.handOk (S2.run cfg (S2.init c x limit threads print) es) e = true) :
+    e.tsegs * e.tsize ≤ (S2.run cfg (S2.init c x limit threads print) es).low :=
+  S2.hand_product_le_low c x limit threads print cfg es e hh
+
+/-- ONE step with hypotheses over the hand instead of the ad-hoc `2^22 / 2^32` bounds of `C16.s2_step_no_overflow_partial`
+    (PARTIAL: see the doc comment of `S2.s2_step_no_overflow_of_hand_partial` for what a whole-history theorem for small
+    ranges still lacks; by the witness search no such theorem exists beyond `limit = 2^52` with 1024 workers) -/
+theorem s2_step_no_overflow_of_hand_partial (cfg : S2.Config) (s : S2.State) (e : S2.Ev) (smin R : Nat)
+    (hdbl : S2.SegsAtMostDouble e) (hsmin : 1 ≤ smin) (hR : 1 ≤ R) (hs1 : 1 ≤ s.segs) (htsize : smin ≤ e.tsize)
+    (hhand : e.tsegs * e.tsize ≤ s.low) (hsegs : s.segs * smin ≤ 2 * s.low)
+    (hsz : s.size ≤ R * smin) (hsz' : (S2.next cfg s e).size ≤ R * smin)
+    (hnum : s.low + 4 * R * s.low * (cfg.threads + 1) < two63)
+    (hsum : s.sum.natAbs ≤ 2 ^ 126 - 1) (htsum : e.tsum.natAbs ≤ 2 ^ 126) :
+    S2.noOvf cfg s e = true :=
+  S2.s2_step_no_overflow_of_hand_partial cfg s e smin R hdbl hsmin hR hs1 htsize hhand hsegs hsz hsz' hnum hsum htsum
+
 /-! ## non-vacuity (tests, labelled as such) -/
 
 /-- a recorded valid run (`x = 1000`, `y = 3`; from the real `LoadBalancerP2`, see PcProps/C08P2.lean) -/
@@ -147,6 +199,11 @@ example : p2OpenMPC (2 ^ 127 - 1) genConsts refIter (fun _ => 4118054813) (10 ^ 
       symm; rw [Nat.eq_sqrt]; norm_num
     rw [this]; norm_num) rfl (by norm_num)
 
+/-- the one-step theorem's hypotheses hold on call 10 of the recorded history (see the `example` in PcProofs/SafetyLB.lean);
+    the invariant's base case -/
+example : S2.HandsBelow S2.wInit := S2.handsBelow_init _ _ _ _ _
+example : S2.handOk (S2.run S2.wCfg S2.wInit (S2.wPre.take 10)) (S2.wPre.getD 10 S2.wLast) = true := by decide +kernel
+
 end Pc.C16Safety
 
 #print axioms Pc.C16Safety.pi_phi_bounds
@@ -159,3 +216,7 @@ end Pc.C16Safety
 #print axioms Pc.C16Safety.closed_form_threshold
 #print axioms Pc.C16Safety.B_64_no_overflow
 #print axioms Pc.C16Safety.B_128_no_overflow
+#print axioms Pc.C16Safety.s2_history_overflow_witness
+#print axioms Pc.C16Safety.s2_whole_history_safety_refuted
+#print axioms Pc.C16Safety.s2_hands_below
+#print axioms Pc.C16Safety.s2_step_no_overflow_of_hand_partial
